@@ -1266,8 +1266,10 @@ def r_call_args(R, **_):
             require(R, is_none_cond(R, dyn_kwargs))
             # "keyword arguments like in Python": a repeated keyword is a syntax error.  Decidable here for the keywords this
             # rule has seen itself; for the part of the list behind the generic loop head it is C01.parse_call_args.distinct
-            seen = [to_term(R.st.get(e.fields["key"].tok).fields["value"], "str") for e in kwargs.items]
-            dup = z3.Or(*[k == to_term(R.st.get(R.cur).fields["value"], "str") for k in seen]) if seen else False
+            # Python compares identifiers after NFKC normalisation (PEP 3131): unicodedata.normalize("NFKC", .) is an opaque pure
+            # dependency, the same uninterpreted function C01 uses
+            seen = [CP.NFKC(to_term(R.st.get(e.fields["key"].tok).fields["value"], "str")) for e in kwargs.items]
+            dup = z3.Or(*[k == CP.NFKC(to_term(R.st.get(R.cur).fields["value"], "str")) for k in seen]) if seen else False
             if kwargs.hole is None:
                 require(R, True if dup is False else z3.Not(dup))
             elif R.choose(2) == 1:
@@ -1544,6 +1546,7 @@ class Level(VC):
         for nm in list(I.specs):
             if isinstance(nm, str) and nm.startswith("Parser.parse"):
                 wrap_with_cursor(I, nm, lambda: self.world)
+        CP.install_unicodedata(I)      # unicodedata.normalize("NFKC", s) -> NFKC(s), uninterpreted
 
         def join(I_, st, args, kwargs, node):
             sep, lst = args[0], args[1]
